@@ -821,3 +821,35 @@ def c14_history(inputs, doc):
                 if bad:
                     return dict(requests_before_first_lease=k, request_queue_size=qsize, granted=granted, problem=bad)
     return None
+
+
+def c12_parse_total(inputs, doc):
+    """parse_or_ignore on the counter-model's bytes (and hostile neighbours of it) under the back end of the harness:
+    returns a frame / None or raises an Exception; an accepted KEEPALIVE can be serialised again (the echo does that)."""
+    backend = 'cbitstruct' if doc['harness'].endswith('@cbitstruct') else 'native'
+    _force_backend(backend)
+    import importlib
+    import rsocket.frame_helpers
+    import rsocket.frame
+    importlib.reload(rsocket.frame_helpers)
+    F = importlib.reload(rsocket.frame)
+    buf = inputs.get('buffer', b'')
+    cands = [bytes(buf)]
+    # KEEPALIVE frames with every reserved / boundary position
+    for pos in (0, 1, 2 ** 63 - 1, 2 ** 63, 2 ** 64 - 1):
+        for flags in (0x00, 0x80):
+            cands.append(b'\x00\x00\x00\x00' + bytes([0x0C, flags]) + pos.to_bytes(8, 'big') + b'xy')
+    for b in cands:
+        try:
+            g = F.parse_or_ignore(b)
+        except Exception:
+            continue
+        except BaseException as e:
+            return dict(buffer=b.hex(), backend=backend, problem='parse_or_ignore raised a BaseException: %r' % e)
+        if g is not None and type(g).__name__ == 'KeepAliveFrame':
+            try:
+                g.serialize()
+            except Exception as e:
+                return dict(buffer=b.hex(), backend=backend, last_received_position=g.last_received_position,
+                            problem='an accepted KEEPALIVE cannot be serialised again (%s: %s): the echo kills the sender' % (type(e).__name__, e))
+    return None
